@@ -146,9 +146,12 @@ func (fc *FuncCtx) calleeParams(com *ssa.CallCommon, spec *FuncSpec) ([]string, 
 	if com.IsInvoke() {
 		sig = com.Method.Type().(*types.Signature)
 		names, tys := sigParams(sig)
-		// receiver type of interface methods: the interface value
+		// receiver type of interface methods: the interface value (the unboxed receiver inside a dispatch branch)
 		if len(tys) > 0 {
 			tys[0] = com.Value.Type()
+			if fc.dispatchRecv != nil {
+				tys[0] = fc.dispatchRecv
+			}
 		}
 		if spec != nil && len(spec.ParamNames) == len(names) {
 			names = spec.ParamNames
@@ -206,7 +209,106 @@ func (fc *FuncCtx) execCall(fr *Frame, st *State, com *ssa.CallCommon, ins ssa.I
 	if spec == nil || spec.Opaque {
 		return fc.opaqueCall(fr, st, com, key, args, ins)
 	}
+	if len(spec.Dispatch) > 0 {
+		return fc.dispatchCall(fr, st, com, key, spec, args, ins)
+	}
 	return fc.contractCall(fr, st, com, key, spec, args, ins)
+}
+
+// dispatchCall: a call through an interface method whose contract is `dispatch (T1).M, (T2).M, ...`. The call site must
+// prove that the dynamic type of the receiver is one of T1..Tn (obligation #callN[..].pre.dispatch: no closed-world
+// assumption is made); the effect is the case split over the contracts of the implementations, each applied to the
+// unboxed receiver. Every implementation must be verified in the same configuration (checked in main).
+func (fc *FuncCtx) dispatchCall(fr *Frame, st *State, com *ssa.CallCommon, key string, spec *FuncSpec, args []Val, ins ssa.Instruction) Val {
+	v := fc.v
+	c := v.c
+	if !com.IsInvoke() || len(args) == 0 {
+		unsupported("dispatch contract %s used for a call that is not an interface method call", key)
+	}
+	x := v.asTerm(st, args[0])
+	type impl struct {
+		spec  *FuncSpec
+		recvT types.Type
+	}
+	var impls []impl
+	var alts []*Term
+	for _, k := range spec.Dispatch {
+		target := v.specs[k]
+		if target == nil || target.SameAs != "" || len(target.Dispatch) > 0 || target.Inline || target.Opaque {
+			unsupported("%s: dispatch %s: target must be a plain contract", key, k)
+		}
+		tf, err := v.lookupFunc(k)
+		if err != nil {
+			unsupported("%s: dispatch: %v", key, err)
+		}
+		sig := tf.Type().(*types.Signature)
+		if sig.Recv() == nil {
+			unsupported("%s: dispatch %s: not a method", key, k)
+		}
+		cp := *target
+		if len(cp.ParamNames) == 0 {
+			cp.ParamNames, _ = sigParams(sig)
+		}
+		impls = append(impls, impl{&cp, sig.Recv().Type()})
+		alts = append(alts, c.Eq(c.UF("typeof", SInt, x), v.typeTag(sig.Recv().Type())))
+		if v.dispatchUsed == nil {
+			v.dispatchUsed = map[string]string{}
+		}
+		v.dispatchUsed[k] = key
+	}
+	cshort := shortFuncName(key)
+	fc.callCount[cshort]++
+	goal := c.And(c.Not(c.Eq(x, c.Int(0))), c.Or(alts...))
+	v.addObligation(&Obligation{Name: fmt.Sprintf("%s#call%d[%s].pre.dispatch", fc.short, fc.callCount[cshort], cshort), Kind: "pre", Func: fc.key,
+		Pos: v.fset.Position(ins.Pos()).String(), Assume: st.pc, Goal: goal, Expect: "unsat", Src: "dynamic type of the receiver is one of the dispatch targets"})
+	st.assume(c, goal)
+	var sts []*State
+	var vals []Val
+	for i, im := range impls {
+		bs := st.clone()
+		bs.assume(c, alts[i])
+		so := v.tm.SortOf(im.recvT)
+		name := "un" + boxName(im.recvT)
+		c.DeclareFun(name, []*Sort{SInt}, so)
+		bargs := append([]Val{{T: c.App(name, so, x), GoT: im.recvT}}, args[1:]...)
+		fc.dispatchRecv = im.recvT
+		r := fc.contractCall(fr, bs, com, im.spec.Key, im.spec, bargs, ins)
+		fc.dispatchRecv = nil
+		if bs.dead {
+			continue
+		}
+		sts = append(sts, bs)
+		vals = append(vals, r)
+	}
+	if len(sts) == 0 {
+		st.dead = true
+		return Val{}
+	}
+	m, rests := v.mergeStates(sts)
+	*st = *m
+	merge := func(get func(i int) Val) Val {
+		last := get(len(sts) - 1)
+		if last.T == nil {
+			return last
+		}
+		t := last.T
+		for i := len(sts) - 2; i >= 0; i-- {
+			t = c.Ite(rests[i], get(i).T, t)
+		}
+		return Val{T: t, GoT: last.GoT}
+	}
+	if len(vals[0].Tuple) > 0 {
+		var tup []Val
+		for k := range vals[0].Tuple {
+			k := k
+			tup = append(tup, merge(func(i int) Val { return vals[i].Tuple[k] }))
+		}
+		return Val{Tuple: tup}
+	}
+	if vals[0].T == nil {
+		return Val{}
+	}
+	return merge(func(i int) Val { return vals[i] })
 }
 
 func (fc *FuncCtx) inline(fr *Frame, st *State, fn *ssa.Function, args []Val, bindings []Val, pos token.Pos) Val {
